@@ -438,8 +438,8 @@ def r5_graph_links_and_constructor(ctx, rep):
     py = ctx.py
     # graph links: only the visibility-gated attribs["URL"] may become an href
     n = 0
-    base_init = py.func("BaseNode.__init__")
-    for node in ast.walk(py.modules["graphs"]):
+    base_init = py.ifunc("BaseNode.__init__")
+    for node in ast.walk(py.imodules["graphs"]):
         if isinstance(node, ast.Attribute) and node.attr == "url" and isinstance(node.ctx, ast.Load):
             fn = py.enclosing_function(node)
             if fn is base_init:
